@@ -253,6 +253,32 @@ def run(rep, tier, seed):
                           {"kind": "impl-trace", "ids": hist, "delivered": seen, "expected": want})
             break
 
+    # the id that selects the class is the id the device put on the wire: both frame helpers must hand it to the lookup unaltered
+    # (ids whose low byte / low 14 bits coincide with a declared id included)
+    from checks import c01 as _c01
+    from vlib import noisesim
+    wire_ids = sorted(set(list(proto_ids)[::9] + [top, 0, top + 1, 255, 256, 256 + 1, 256 + 5, 256 + 7, 256 + 25, 256 + top, 512 + 5, 0x1000 + 7, 16384 + 7, 65535, 65536 - 256 + 5]))
+    for helper in ("plaintext", "noise"):
+        if helper == "plaintext":
+            per_call, _, _ = _c01.run_impl([b"".join(_c01.enc_frame(i, b"") for i in wire_ids)], [0])
+            got = [int(e.split(":")[1], 16) for c in per_call for e in c if e.startswith("D:")]
+        else:
+            psk = bytes(range(1, 33))
+            resp = noisesim.Responder(psk, b"dev")
+            sess = noisesim.ImplSession(noisesim.b64(psk), None)
+            sess.op("made")
+            hs_frame, _ = resp.handshake_frames(noisesim.split_frames(sess.writes[0])[1][1:])
+            sess.op("data", resp.hello_frame() + hs_frame)
+            evs = sess.op("data", b"".join(resp.data_frame(i, b"")[0] for i in wire_ids))
+            got = [int(e.split(":")[1], 16) for e in evs if isinstance(e, str) and e.startswith("D:")]
+        rep.case(("wire-id", helper), True, sample={"helper": helper, "ids": wire_ids[:12]})
+        rep.bump("wire-id:" + helper)
+        if got != wire_ids:
+            diff = [(a, b) for a, b in zip(wire_ids, got) if a != b][:5]
+            rep.violation("C13/lookup/wire-id", f"{helper} frames with ids {wire_ids} reach the class lookup as {got} (first differences sent/looked-up: {diff}): "
+                          "an undeclared id would select a declared class",
+                          {"kind": "impl-trace", "helper": helper, "ids": wire_ids, "looked_up": got})
+
     # 3. API sweep (validates gen_clientapi and checks direction on what is really sent / subscribed)
     try:
         entries, _unacc = gen_clientapi.extract()
